@@ -1,5 +1,9 @@
 //! Development aid (not a check).
 pub(crate) fn run() -> i32 {
-    crate::verif::props::c06::debug_case();
+    match std::env::var("SMOKE").as_deref() {
+        Ok("c08") => crate::verif::props::c08::debug_case(),
+        Ok("c05") => crate::verif::props::c05::debug_case(),
+        _ => crate::verif::props::c06::debug_case(),
+    }
     0
 }
